@@ -146,6 +146,11 @@ pub struct Req {
     /// timed writes / invokes: everything the controller sends after its first datagram (the timed request) is held
     /// back in the network until the announced window (2 s) has passed
     pub late: bool,
+    /// writes / invokes: the TimedRequest flag the (first) request message carries (normally = `timed`)
+    pub claim: bool,
+    /// writes: a second WriteRequest chunk (paths, the TimedRequest flag it carries, sent only after the timed window
+    /// has passed); the first chunk then carries MoreChunkedMessages
+    pub chunk2: Option<(Vec<(Option<u16>, Option<u32>, Option<u32>)>, bool, bool)>,
 }
 
 pub struct Outcome {
@@ -265,10 +270,62 @@ pub fn run_request(spec: &NodeSpec, acl: &[AclEntry], pase: bool, req: &Req, max
                         }
                     }
                 }
+                "write" if req.chunk2.is_some() => {
+                    // a write in two WriteRequest chunks, sent by hand over the exchange
+                    use rs_matter::im::{OpCode, StatusResp, TimedReq, WriteResp};
+                    use rs_matter::tlv::{FromTLV, TLVElement, TLVWriteParent, TagType};
+                    let mut ex: Exchange = exchange;
+                    if req.timed {
+                        ex.send_with(|_, wb| {
+                            TimedReq { timeout: 2000, interaction_model_revision: Some(rs_matter::im::IM_REVISION) }.to_tlv(&TagType::Anonymous, wb)?;
+                            Ok(Some(OpCode::TimedRequest.into()))
+                        }).await?;
+                        let rx = ex.recv().await?;
+                        if rx.meta().proto_opcode != OpCode::StatusResponse as u8 {
+                            return Err(rs_matter::error::ErrorCode::Invalid.into());
+                        }
+                    }
+                    let (paths2, claim2, late2) = req.chunk2.clone().unwrap();
+                    for (k, (ps, claim, more)) in [(req.paths.clone(), req.claim, true), (paths2, claim2, false)].into_iter().enumerate() {
+                        let chunk_no = k + 1;
+                        if chunk_no == 2 {
+                            if late2 {
+                                embassy_time::Timer::after_millis(2700).await;
+                            }
+                            gen.log.borrow_mut().push(json!({"h": "mark", "chunk": 2}));
+                        }
+                        let paths: Vec<AttrPath> = ps.iter().map(|p| AttrPath::from_gp(&gp(p))).collect();
+                        ex.send_with(|_, wb| {
+                            let parent = TLVWriteParent::new("WriteRequest", wb);
+                            let mut arr = rs_matter::im::WriteReqBuilder::new(parent, &TLVTag::Anonymous)?.suppress_response(false)?.timed_request(claim)?.write_requests()?;
+                            for p in paths.iter() {
+                                arr = arr.push()?.path_from(p)?.data(|w| 5u16.to_tlv(&TLVTag::Context(2), w))?.end()?;
+                            }
+                            arr.end()?.more_chunks(more)?.end()?;
+                            Ok(Some(OpCode::WriteRequest.into()))
+                        }).await?;
+                        let rx = ex.recv().await?;
+                        let op = rx.meta().proto_opcode;
+                        if op == OpCode::WriteResponse as u8 {
+                            let resp = WriteResp::from_tlv(&TLVElement::new(rx.payload()))?;
+                            for st in resp.write_responses.iter() {
+                                let st = st?;
+                                items.borrow_mut().push(json!({"k": "status", "chunk": chunk_no, "ep": st.path.endpoint, "cl": st.path.cluster, "leaf": st.path.attr, "status": format!("{:?}", st.status.status)}));
+                            }
+                        } else if op == OpCode::StatusResponse as u8 {
+                            let st = StatusResp::from_tlv(&TLVElement::new(rx.payload()))?;
+                            items.borrow_mut().push(json!({"k": "chunk-status", "chunk": chunk_no, "status": format!("{:?}", st.status)}));
+                            break;
+                        } else {
+                            items.borrow_mut().push(json!({"k": "chunk-status", "chunk": chunk_no, "status": format!("opcode {op}")}));
+                            break;
+                        }
+                    }
+                }
                 "write" => {
                     let paths: Vec<AttrPath> = req.paths.iter().map(|p| AttrPath::from_gp(&gp(p))).collect();
                     let handle = exchange.write_with(timed, |b| {
-                        let mut arr = b.suppress_response(false)?.timed_request(req.timed)?.write_requests()?;
+                        let mut arr = b.suppress_response(false)?.timed_request(req.claim)?.write_requests()?;
                         for p in paths.iter() {
                             arr = arr.push()?.path_from(p)?.data(|w| 5u16.to_tlv(&TLVTag::Context(2), w))?.end()?;
                         }
@@ -288,7 +345,7 @@ pub fn run_request(spec: &NodeSpec, acl: &[AclEntry], pase: bool, req: &Req, max
                     let mut chunk = loop {
                         match sender.tx().await? {
                             TxOutcome::BuildRequest(builder) => {
-                                let mut arr = builder.suppress_response(false)?.timed_request(req.timed)?.invoke_requests()?;
+                                let mut arr = builder.suppress_response(false)?.timed_request(req.claim)?.invoke_requests()?;
                                 for p in req.paths.iter() {
                                     arr = arr.push()?.path(p.0.unwrap_or(0xffff), p.1.unwrap_or(0), p.2.unwrap_or(0))?.data(|w| { w.start_struct(&TLVTag::Context(1))?; w.end_container() })?.end()?;
                                 }
